@@ -731,6 +731,18 @@ func (env *SpecEnv) evalCall(x *SCall) Val {
 		argn(1)
 		return env.eval(x.Args[0])
 	}
+	// conversion to a named array type (ids.ID(b), codec.Address(b)): the bytes shifted to index 0
+	if len(x.Args) == 1 && in.W.specFunc(env.pkgPath, name) == nil {
+		if t := in.W.lookupType(env.pkgPath, name); t != nil {
+			if at, ok := t.Underlying().(*types.Array); ok {
+				arr, off, _ := env.bytesView(env.eval(x.Args[0]))
+				if off.IsLit() && off.lit.Sign() == 0 {
+					return ArrV{T: arr, N: at.Len()}
+				}
+				return ArrV{T: App("ashift", ArrSort(SInt), arr, off), N: at.Len()}
+			}
+		}
+	}
 	// spec function?
 	if sf := in.W.specFunc(env.pkgPath, name); sf != nil {
 		return env.callSpecFunc(sf, x)
